@@ -28,7 +28,7 @@ META = {
 }
 MANIFEST = {
     "level_text": "Bounded symbolic exploration + per-path LRA optimality certificate: over every weak-ordering class of scores (z3-enumerated paths of the "
-                  "real code) the negated optimality claim, quantified over all randomised per-group mixtures and all grid points, is refuted by z3.",
+                  "real code) the negated optimality claim, quantified over all randomised per-group mixtures and all grid points, is refuted by z3. Plus the unit lemma U1: on symbolic curve points z3 proves the interpolated hull is the concave envelope of the input points (for all reals, K<=5/6). The fitted rule must itself be admissible on the REQUESTED grid (estimators are configured through set_params in half of the jobs).",
     "level_note": "Trusted: z3, symx, the harness's own rule enumeration/metric table (short, from the definitions). 1e-9 slack; layouts bounded.",
     "design_ref": "DESIGN.md section 6 C05",
 }
